@@ -127,6 +127,17 @@ CLAIMS: dict[str, dict[str, str]] = {
         "note": NOTE,
         "technique": "dispatch exhaustiveness, field-lattice rule, linear normal forms, fold information flow",
     },
+    "C13": {
+        "text": "Static rule checking: fraction-scale rule at every split('.') site of the pure-Python duration parser "
+                "(length-aware scaling, no truncation of digits or of the carry), fraction-last / no fractional Y,M / "
+                "weeks-exclusive guards; on rustc MIR with the release overflow setting: loop classification "
+                "(constant-bounded vs input-bounded) and a no-plain-arithmetic rule for loop-carried integers in "
+                "input-bounded loops plus a taint rule for the one unbounded parsed number; interval assembly "
+                "(add/subtract with the same 8 components) and attribute agreement across .pyi / Rust getters / "
+                "pendulum.Duration. Exact rational rounding is float behaviour and not claimed.",
+        "note": NOTE + " rustc --emit=mir with profile.release's overflow-checks=false is trusted to show unchecked arithmetic as plain Add/Mul.",
+        "technique": "fraction-scale lint over def-use chains, MIR loop classification + unchecked-arithmetic taint rule",
+    },
 }
 
 NOT_APPLICABLE: dict[str, str] = {}
